@@ -5,6 +5,7 @@ import (
 	"fmt"
 	"io"
 	"log"
+	"os"
 	"strings"
 	"testing"
 
@@ -99,6 +100,9 @@ type rcCase struct {
 	Subset []string `json:"subset"` // nil = whole alignment
 	Whole  bool     `json:"whole"`
 	Bag    bool     `json:"bag"` // use an unaligned sequence set (rows of different lengths)
+	// Plan: the alignment is not freshly built but comes out of a chain of other public operations
+	// (clone, renaming, cutting, cleaning, concatenation, re-reading) that ends on the same content
+	Plan gen.Plan `json:"plan,omitempty"`
 }
 
 func genRC(t *rapid.T) rcCase {
@@ -129,6 +133,9 @@ func genRC(t *rapid.T) rcCase {
 			li = rapid.IntRange(0, 25).Draw(t, "Li")
 		}
 		c.Ali.Rows = append(c.Ali.Rows, gen.Row{Name: fmt.Sprintf("s%d", i), Seq: gen.SeqN(t, chars, li)})
+	}
+	if !c.Bag && n <= 6 && rapid.IntRange(0, 2).Draw(t, "provenance") == 0 {
+		c.Plan = gen.DrawPlan(t, c.Ali, chars, 3)
 	}
 	c.Whole = rapid.Bool().Draw(t, "whole")
 	if !c.Whole {
@@ -181,12 +188,19 @@ func commentsKept(sb align.SeqBag, what string) error {
 	return nil
 }
 
-func build(c rcCase) align.SeqBag {
-	return withComments(c.Ali, c.Bag)
+// build returns the container and whether it carries the comments of withComments
+func build(ali gen.Ali, bag bool, plan gen.Plan) (sb align.SeqBag, comments bool, via string) {
+	if !bag && len(plan.Steps) > 0 {
+		if al, usable := gen.BuildVia(ali, plan); usable {
+			return al, false, "provenance"
+		}
+		return withComments(ali, bag), true, "provenance-unusable"
+	}
+	return withComments(ali, bag), true, "fresh"
 }
 
 func checkRC(c rcCase) (o pbt.Outcome, err error) {
-	sb := build(c)
+	sb, comments, via := build(c.Ali, c.Bag, c.Plan)
 	before := gen.Snapshot(sb)
 	if !gen.SameRows(before, c.Ali.Rows) {
 		return o, fmt.Errorf("harness: container does not hold the generated rows: %s", gen.Show(before))
@@ -220,8 +234,10 @@ func checkRC(c rcCase) (o pbt.Outcome, err error) {
 	if !gen.SameRows(got, want) {
 		return o, fmt.Errorf("reverse complement differs from the set-derived oracle\n got : %s\n want: %s", gen.Show(trimShow(got)), gen.Show(trimShow(want)))
 	}
-	if e := commentsKept(sb, "reverse complement"); e != nil {
-		return o, e
+	if comments {
+		if e := commentsKept(sb, "reverse complement"); e != nil {
+			return o, e
+		}
 	}
 	if al, ok := sb.(align.Alignment); ok {
 		if al.Length() != c.Ali.Length() {
@@ -264,6 +280,12 @@ func checkRC(c rcCase) (o pbt.Outcome, err error) {
 	o.NonTrivial = changed && (asym || mixed || proper)
 	o.Class("whole=%v", c.Whole)
 	o.Class("bag=%v", c.Bag)
+	if via != "fresh" {
+		o.Class("object from: %s", via)
+		for _, k := range c.Plan.Kinds() {
+			o.Class("provenance step %s", k)
+		}
+	}
 	if proper {
 		o.Class("proper-subset")
 	}
@@ -327,8 +349,9 @@ func TestComplementTable(t *testing.T) {
 // ---- case and un-align ---------------------------------------------------------------------
 
 type caseCase struct {
-	Ali gen.Ali `json:"ali"`
-	Bag bool    `json:"bag"`
+	Ali  gen.Ali  `json:"ali"`
+	Bag  bool     `json:"bag"`
+	Plan gen.Plan `json:"plan,omitempty"` // see rcCase
 }
 
 func genCase(t *rapid.T) caseCase {
@@ -352,6 +375,9 @@ func genCase(t *rapid.T) caseCase {
 			li = rapid.IntRange(0, 25).Draw(t, "Li")
 		}
 		c.Ali.Rows = append(c.Ali.Rows, gen.Row{Name: fmt.Sprintf("s%d", i), Seq: gen.SeqN(t, chars, li)})
+	}
+	if !c.Bag && n <= 6 && rapid.IntRange(0, 2).Draw(t, "provenance") == 0 {
+		c.Plan = gen.DrawPlan(t, c.Ali, chars, 3)
 	}
 	return c
 }
@@ -377,7 +403,12 @@ func asciiLower(s string) string {
 }
 
 func checkCase(c caseCase) (o pbt.Outcome, err error) {
-	mk := func() align.SeqBag { return withComments(c.Ali, c.Bag) }
+	comments, via := true, "fresh"
+	mk := func() align.SeqBag {
+		var sb align.SeqBag
+		sb, comments, via = build(c.Ali, c.Bag, c.Plan)
+		return sb
+	}
 	rows := c.Ali.Rows
 	// upper
 	sb := mk()
@@ -392,8 +423,10 @@ func checkCase(c caseCase) (o pbt.Outcome, err error) {
 	if !gen.SameRows(gen.Snapshot(sb), up) {
 		return o, fmt.Errorf("ToUpper is not idempotent")
 	}
-	if e := commentsKept(sb, "ToUpper"); e != nil {
-		return o, e
+	if comments {
+		if e := commentsKept(sb, "ToUpper"); e != nil {
+			return o, e
+		}
 	}
 	// lower
 	sb = mk()
@@ -408,8 +441,10 @@ func checkCase(c caseCase) (o pbt.Outcome, err error) {
 	if !gen.SameRows(gen.Snapshot(sb), lo) {
 		return o, fmt.Errorf("ToLower is not idempotent")
 	}
-	if e := commentsKept(sb, "ToLower"); e != nil {
-		return o, e
+	if comments {
+		if e := commentsKept(sb, "ToLower"); e != nil {
+			return o, e
+		}
 	}
 	// lower then upper = upper
 	sb.ToUpper()
@@ -435,11 +470,15 @@ func checkCase(c caseCase) (o pbt.Outcome, err error) {
 	if !gen.SameRows(gen.Snapshot(sb), rows) {
 		return o, fmt.Errorf("Unalign modified its input")
 	}
-	if e := commentsKept(un, "Unalign (result)"); e != nil {
-		return o, e
+	if comments {
+		if e := commentsKept(un, "Unalign (result)"); e != nil {
+			return o, e
+		}
 	}
-	if e := commentsKept(sb, "Unalign (input)"); e != nil {
-		return o, e
+	if comments {
+		if e := commentsKept(sb, "Unalign (input)"); e != nil {
+			return o, e
+		}
 	}
 	// the un-aligned set owns its residues: transforming it leaves the source alone, and
 	// transforming the source leaves it alone (a gap-free row is the easy one to share)
@@ -464,6 +503,12 @@ func checkCase(c caseCase) (o pbt.Outcome, err error) {
 	o.NonTrivial = mixed && removed
 	o.Class("alphabet=%s", c.Ali.Alphabet)
 	o.Class("bag=%v", c.Bag)
+	if via != "fresh" {
+		o.Class("object from: %s", via)
+		for _, k := range c.Plan.Kinds() {
+			o.Class("provenance step %s", k)
+		}
+	}
 	return o, nil
 }
 
@@ -572,9 +617,13 @@ func TestSequenceLevel(t *testing.T) {
 // ---- command line tier -----------------------------------------------------------------------
 
 type cliCase struct {
-	Ali    gen.Ali  `json:"ali"`
-	Cmd    string   `json:"cmd"`
-	Subset []string `json:"subset"`
+	Ali       gen.Ali    `json:"ali"`
+	Cmd       string     `json:"cmd"`
+	Subset    []string   `json:"subset"`
+	Unaligned bool       `json:"unaligned,omitempty"` // --unaligned: a sequence set, rows of any length
+	Format    string     `json:"format,omitempty"`    // "" = fasta, "phylip"
+	Layout    cli.Layout `json:"layout,omitempty"`    // presentation of a fasta input
+	Out       string     `json:"out,omitempty"`       // "" = standard output, "new" / "stale" = -o file
 }
 
 func TestCLI(t *testing.T) {
@@ -589,9 +638,21 @@ func TestCLI(t *testing.T) {
 		// lengths around the FASTA writer's line width too
 		l := rapid.SampledFrom([]int{1, 2, 3, 7, 20, 79, 80, 81, 161}).Draw(t, "L")
 		c.Ali.Alphabet = "nt"
+		c.Unaligned = c.Cmd != "unalign" && rapid.IntRange(0, 3).Draw(t, "unaligned") == 0
+		if !c.Unaligned && rapid.IntRange(0, 3).Draw(t, "phylip") == 0 {
+			c.Format = "phylip"
+		}
+		if c.Format == "" {
+			c.Layout = cli.DrawLayout(t)
+		}
+		c.Out = rapid.SampledFrom([]string{"", "", "new", "stale"}).Draw(t, "out")
 		for i := 0; i < n; i++ {
+			li := l
+			if c.Unaligned {
+				li = rapid.IntRange(1, l).Draw(t, "Li")
+			}
 			// at least one unambiguous nucleotide per file so that alphabet detection says nt
-			c.Ali.Rows = append(c.Ali.Rows, gen.Row{Name: fmt.Sprintf("s%d", i), Seq: "A" + gen.SeqN(t, "ACGTRYSWKMBDHVNacgtryswkmbdhvn-", l-1)})
+			c.Ali.Rows = append(c.Ali.Rows, gen.Row{Name: fmt.Sprintf("s%d", i), Seq: "A" + gen.SeqN(t, "ACGTRYSWKMBDHVNacgtryswkmbdhvn-.*", li-1)})
 		}
 		if c.Cmd == "revcomp-subset" {
 			k := rapid.IntRange(1, 3).Draw(t, "k")
@@ -605,7 +666,14 @@ func TestCLI(t *testing.T) {
 		}
 		return c
 	}, func(c cliCase) (o pbt.Outcome, err error) {
-		in := cli.TempFile(dir, ".fa", cli.Fasta(c.Ali.Rows))
+		var in string
+		var fmtArgs []string
+		if c.Format == "phylip" {
+			in = cli.TempFile(dir, ".phy", cli.Phylip(c.Ali.Rows))
+			fmtArgs = []string{"-p"}
+		} else {
+			in = cli.TempFile(dir, ".fa", cli.FastaLayout(c.Ali.Rows, c.Layout))
+		}
 		want := make([]gen.Row, len(c.Ali.Rows))
 		copy(want, c.Ali.Rows)
 		args := []string{}
@@ -616,7 +684,7 @@ func TestCLI(t *testing.T) {
 				want[i].Seq = refRevComp(want[i].Seq)
 			}
 		case "revcomp-subset":
-			args = append([]string{"revcomp", "-i", in}, c.Subset...)
+			args = []string{"revcomp", "-i", in}
 			for _, name := range c.Subset {
 				for i := range want {
 					if want[i].Name == name {
@@ -640,13 +708,57 @@ func TestCLI(t *testing.T) {
 				want[i].Seq = ungapped(want[i].Seq)
 			}
 		}
+		args = append(args, fmtArgs...)
+		if c.Unaligned {
+			args = append(args, "--unaligned")
+		}
+		outFile := ""
+		if c.Out != "" {
+			outFile = cli.TempFile(dir, ".out", "")
+			os.Remove(outFile)
+			args = append(args, "-o", outFile)
+			if c.Cmd == "unalign" {
+				// -o is a prefix there: one file per alignment of the input
+				outFile += "_000001.fa"
+			}
+			if c.Out == "stale" {
+				cli.StaleFile(outFile, 40)
+			}
+		}
+		if c.Cmd == "revcomp-subset" {
+			args = append(args, c.Subset...)
+		}
 		r := cli.Run("", args...)
 		if r.Exit != 0 {
 			return o, fmt.Errorf("goalign %v: exit %d, stderr %q", args, r.Exit, r.Stderr)
 		}
-		got, perr := cli.ParseFasta(r.Stdout)
+		text := r.Stdout
+		if outFile != "" {
+			b, rerr := os.ReadFile(outFile)
+			if rerr != nil {
+				return o, fmt.Errorf("goalign %v: output file not written: %v", args, rerr)
+			}
+			if strings.TrimSpace(r.Stdout) != "" {
+				return o, fmt.Errorf("goalign %v: output also printed on standard output: %q", args, r.Stdout)
+			}
+			text = string(b)
+		}
+		var got []gen.Row
+		var perr error
+		if c.Format == "phylip" && c.Cmd != "unalign" {
+			var alis [][]gen.Row
+			alis, perr = cli.ParsePhylipStream(text)
+			if perr == nil && len(alis) != 1 {
+				perr = fmt.Errorf("%d alignments in the output", len(alis))
+			}
+			if perr == nil {
+				got = alis[0]
+			}
+		} else {
+			got, perr = cli.ParseFasta(text)
+		}
 		if perr != nil {
-			return o, fmt.Errorf("goalign %v: unreadable output: %v", args, perr)
+			return o, fmt.Errorf("goalign %v: unreadable output: %v\n%q", args, perr, text)
 		}
 		if c.Cmd == "unalign" {
 			// an entirely gapped row may be printed as an empty record
@@ -655,10 +767,22 @@ func TestCLI(t *testing.T) {
 			}
 		}
 		if !gen.SameRows(got, want) {
-			return o, fmt.Errorf("goalign %v\n got : %s\n want: %s", args, gen.Show(got), gen.Show(want))
+			return o, fmt.Errorf("goalign %v (input layout %+v)\n got : %s\n want: %s", args, c.Layout, gen.Show(got), gen.Show(want))
 		}
 		o.NonTrivial = !gen.SameRows(want, c.Ali.Rows)
 		o.Class("cmd=%s", c.Cmd)
+		if c.Unaligned {
+			o.Class("--unaligned")
+		}
+		if c.Format != "" {
+			o.Class("format=%s", c.Format)
+		}
+		if !c.Layout.Plain() {
+			o.Class("fasta layout other than one line per sequence")
+		}
+		if c.Out != "" {
+			o.Class("output file: %s", c.Out)
+		}
 		return o, nil
 	})
 }
